@@ -174,9 +174,11 @@ pub fn judge_c01(script: &Script, obs: &Observation) -> CaseResult {
 // ---------------------------------------------------------------------------------------------
 // C04
 
-/// (name, at risk of known finding F-B) for every `changed:` line the server wrote, in order.
+/// Every `changed:` line the server wrote, in order; the flag marks lines that were consumed by a
+/// receive() which the idle loop's select! then dropped in favour of a request (the client wrote
+/// noidle while its read position was strictly inside the reply, at or after the end of the line).
+/// That is the window of finding F-B (fixed by 19fe0aa): it is only classified, never forgiven.
 fn expected_events(obs: &Observation) -> Vec<(String, bool)> {
-    // read position whenever the client wrote `noidle`
     let noidle_positions: Vec<usize> = obs
         .transcript
         .iter()
@@ -191,11 +193,8 @@ fn expected_events(obs: &Observation) -> Vec<(String, bool)> {
             let mut off = *start;
             for n in names {
                 let line_end = off + "changed: ".len() + n.len() + 1;
-                // F-B: the line had been consumed by a receive() that select! then dropped in
-                // favour of a request: the client wrote noidle while its read position was
-                // strictly inside this reply, at or after the end of this line
-                let at_risk = noidle_positions.iter().any(|p| *p > *start && *p < *end && line_end <= *p);
-                out.push((n.clone(), at_risk));
+                let in_window = noidle_positions.iter().any(|p| *p > *start && *p < *end && line_end <= *p);
+                out.push((n.clone(), in_window));
                 off = line_end;
             }
         }
@@ -215,11 +214,11 @@ pub fn judge_c04(script: &Script, obs: &Observation) -> CaseResult {
     let outside_idle = flat.windows(2).any(|w| matches!((&w[0], &w[1]), (Step::Issue { .. }, Step::Change(_))));
     r.class_if(unknown, "unknown_subsystem_name");
     r.class_if(outside_idle, "change_right_after_issue");
-    r.class_if(want.iter().any(|(_, risk)| *risk), "f_b_window_open");
+    r.class_if(want.iter().any(|(_, w)| *w), "lines_consumed_by_a_cancelled_receive");
     if !want.is_empty()
         && (unknown
             || outside_idle
-            || r.classes.iter().any(|c| ["idle_reply_with_several_names", "idle_reply_split_across_reads", "noidle_crossed_idle_reply"].contains(c)))
+            || r.classes.iter().any(|c| ["idle_reply_with_several_names", "idle_reply_split_across_reads", "noidle_crossed_idle_reply", "lines_consumed_by_a_cancelled_receive"].contains(c)))
     {
         r.nontrivial();
     }
@@ -234,32 +233,13 @@ pub fn judge_c04(script: &Script, obs: &Observation) -> CaseResult {
             }
         }
     }
-    // `got` must arise from `want` by deleting at-risk lines only (nothing invented, nothing
-    // reordered, nothing else lost): feasible[w][g] = want[w..] can produce got[g..]
-    let (nw, ng) = (want.len(), got.len());
-    let mut feasible = vec![vec![false; ng + 1]; nw + 1];
-    feasible[nw][ng] = true;
-    for w in (0..nw).rev() {
-        for g in (0..=ng).rev() {
-            let take = g < ng && got[g] == want[w].0 && feasible[w + 1][g + 1];
-            let skip = want[w].1 && feasible[w + 1][g];
-            feasible[w][g] = take || skip;
-        }
-    }
-    if !feasible[0][0] {
+    let names: Vec<&str> = want.iter().map(|(n, _)| n.as_str()).collect();
+    if got.iter().map(String::as_str).collect::<Vec<_>>() != names {
         r.fail(format!(
-            "events delivered {got:?}, but the server reported {:?} (lines a cancelled receive may have swallowed, known finding F-B: {:?})",
-            want.iter().map(|(n, _)| n.as_str()).collect::<Vec<_>>(),
-            want.iter().filter(|(_, risk)| *risk).map(|(n, _)| n.as_str()).collect::<Vec<_>>()
+            "events delivered {got:?}, but the server reported {names:?} (lines consumed by a receive() that was cancelled in favour of a request: {:?})",
+            want.iter().filter(|(_, w)| *w).map(|(n, _)| n.as_str()).collect::<Vec<_>>()
         ));
         return r;
-    }
-    let lost: Vec<()> = vec![(); nw - ng];
-    if !lost.is_empty() {
-        r.known(
-            "F-B",
-            "select! in the idle state drops a receive() that had already consumed 'changed:' lines of a split idle reply when a request arrives before the rest: those notifications are lost",
-        );
     }
     r
 }
@@ -411,7 +391,7 @@ pub fn systematic_scripts(max_len: usize, seeds: u64) -> impl Iterator<Item = Sc
                 let mut replies = Vec::new();
                 let mut k = 0;
                 let steps = digits.iter().map(|d| atom(*d, &mut k, &mut replies)).collect();
-                Script { sched_seed: seed + 1, seg, replies, steps, max_write: None, picture: None, broken_pipe: true, greeting: None }
+                Script { sched_seed: seed + 1, seg, replies, steps, max_write: None, picture: None, broken_pipe: true, greeting: None, lazy_events: false }
             })
         })
     })
@@ -420,11 +400,62 @@ pub fn systematic_scripts(max_len: usize, seeds: u64) -> impl Iterator<Item = Sc
 pub fn systematic_part(judge: fn(&Script, &Observation) -> CaseResult) -> Box<dyn crate::core::Part> {
     Box::new(crate::core::ExhaustivePart {
         name: "systematic_schedules",
-        rule: "EVERY sequence of 1-3 (thorough: 1-4) steps over 13 atoms {request by caller 0, request by caller 1, 3-command list failing at its 2nd command after partial output, change [player], change [mixer, zz_new], advance 99 ms, advance 101 ms, hold, release 16 bytes, release all, request+change becoming ready together, two requests together, cancel request 0} x 2 (thorough 4) select! seeds x {whole, per-line} segmentation; same judge as the random part; non-trivial by the same rule",
-        space: Box::new(|t: Tier| Box::new(systematic_scripts(t.pick(3, 4), t.pick(2, 4)))),
+        rule: "EVERY sequence of 1-4 (thorough: 1-5) steps over 13 atoms {request by caller 0, request by caller 1, 3-command list failing at its 2nd command after partial output, change [player], change [mixer, zz_new], advance 99 ms, advance 101 ms, hold, release 16 bytes, release all, request+change becoming ready together, two requests together, cancel request 0} x 1 (thorough 2) select! seeds x {whole, per-line} segmentation; same judge as the random part; non-trivial by the same rule",
+        space: Box::new(|t: Tier| Box::new(systematic_scripts(t.pick(4, 5), t.pick(1, 2)))),
         check: Box::new(move |s: &Script| {
             let obs = sim::run(s);
             judge(s, &obs)
+        }),
+    })
+}
+
+/// C04 with a consumer that does not read events before the end: nothing may be dropped however
+/// many notifications pile up.
+fn slow_consumer_part() -> Box<dyn crate::core::Part> {
+    Box::new(RandomPart {
+        name: "slow_consumer",
+        rule: "proptest: N idle replies of 1-4 names each, N from {1, 10, 100, 300, 600, 1100, 2500}, with a request every ~50 changes, while the event receiver is not polled until the end of the script; afterwards the events must be exactly all reported names in order. non-trivial = more than 1000 names pending",
+        cases: (48, 2_000),
+        strategy: Box::new(|_t| {
+            (
+                prop_oneof![Just(1usize), Just(10), Just(100), Just(300), Just(600), Just(1100), Just(2500)],
+                any::<u64>(),
+                1..=4usize,
+            )
+                .prop_map(|(n, seed, width)| {
+                    let mut steps = Vec::new();
+                    let mut replies = Vec::new();
+                    let mut s = seed;
+                    for i in 0..n {
+                        let mut names = Vec::new();
+                        for _ in 0..width {
+                            s = crate::core::splitmix64(s);
+                            names.push(simgen::SUBSYSTEMS[(s % 14) as usize].to_string());
+                        }
+                        steps.push(Step::Change(names));
+                        if i % 50 == 49 {
+                            let t = format!("r{i}x0");
+                            replies.push((t.clone(), ReplySpec::Ok { fields: vec![], binary: None }));
+                            steps.push(Step::Issue { caller: 0, req: Req::Raw(t) });
+                            // let the client go back to idle, otherwise the server merges the
+                            // following changes into one reply
+                            steps.push(Step::Advance(101));
+                        }
+                    }
+                    Script { sched_seed: seed, seg: sim::SegPattern::Whole, replies, steps, max_write: None, picture: None, broken_pipe: true, greeting: None, lazy_events: true }
+                })
+                .boxed()
+        }),
+        check: Box::new(|s: &Script| {
+            let obs = sim::run(s);
+            let mut r = judge_c04(s, &obs);
+            if std::env::var_os("VERIF_DEBUG").is_some() {
+                eprintln!("slow_consumer: {} steps, {} events, ended {}, outcome {:?}", s.steps.len(), obs.events.len(), obs.events_ended, r.outcome);
+            }
+            r.nontrivial = obs.events.len() > 1000;
+            r.classes.clear();
+            r.class(if obs.events.len() > 1024 { "more_than_1024_pending" } else { "up_to_1024_pending" });
+            r
         }),
     })
 }
@@ -457,14 +488,14 @@ pub fn c04(_tier: Tier) -> Property {
         level: "exploration",
         parts: vec![Box::new(RandomPart {
             name: "histories",
-            rule: "as C01's scripts but biased to Change steps with 1-4 names from the 14 documented subsystems and unknown [a-z_]{1,16} names, changes while idle / while a request is in flight / inside the re-idle delay / right before an Issue with the reply on hold; the event sequence must equal the concatenation of all 'changed:' lines the simulated server wrote. non-trivial = at least one change and (a reply with >=2 names, an unknown name, a reply split across reads, a change right after an Issue, or the noidle race); lines lost exactly as known finding F-B describes are counted as excluded",
+            rule: "as C01's scripts but biased to Change steps with 1-4 names from the 14 documented subsystems and unknown [a-z_]{1,16} names, changes while idle / while a request is in flight / inside the re-idle delay / right before an Issue with the reply on hold; the event sequence must equal the concatenation of all 'changed:' lines the simulated server wrote. non-trivial = at least one change and (a reply with >=2 names, an unknown name, a reply split across reads, a change right after an Issue, or the noidle race, or a receive() cancelled after it consumed lines of a split reply - the window of fixed finding F-B)",
             cases: (60_000, 3_000_000),
             strategy: Box::new(|_t| simgen::script(6, 4, 24).boxed()),
             check: Box::new(|s: &Script| {
                 let obs = sim::run(s);
                 judge_c04(s, &obs)
             }),
-        }), systematic_part(judge_c04)],
+        }), systematic_part(judge_c04), slow_consumer_part()],
         assumptions: vec!["as C01", "pending changes are reported by the simulated server at the next idle, duplicates merged (as MPD's idle flags)"],
         selftest: None,
     }
